@@ -149,7 +149,7 @@ ReqStreamViews  == {"req.body", "req.bodyBytes", "req.postArgs", "req.postArgStr
                     "req.h.trailer"}      \* the trailer of a chunked body arrives when the stream has been read
 RespStreamViews == {"resp.body", "resp.bodyBytes", "resp.hijack"}
 (* what the as-written CopyTo loses of a multipart request parsed while it was read (no body bytes kept) *)
-PreParsedLoss   == {"req.body", "req.mp.flags", "req.mp.form", "ctx.derived", "ctx.formValueFunc"}
+PreParsedLoss   == {"req.body", "req.bodyBytes", "req.mp.flags", "req.mp.form", "ctx.derived", "ctx.formValueFunc"}
 
 MayDiffer(reqStream, respStream) ==
   NotCopied \cup (IF reqStream THEN ReqStreamViews ELSE {}) \cup (IF respStream THEN RespStreamViews ELSE {})
